@@ -256,3 +256,91 @@ def obligations(tier: str) -> list[dict]:
     for build in PART_B:
         obs += build(tier)
     return obs
+
+
+# ---------------------------------------------------------------------------------------------
+# Part B: compile() output on models with non-default gate sets (E4-lite, see harness/C01.py)
+# ---------------------------------------------------------------------------------------------
+
+GATESETS = {
+    'u3+cx': ('U3Gate', 'CNOTGate'), 'rz+sx+cx': ('RZGate', 'SqrtXGate', 'CNOTGate'),
+    'rz+rx+cz': ('RZGate', 'RXGate', 'CZGate'), 'u1+sx+cx': ('U1Gate', 'SqrtXGate', 'CNOTGate'),
+    'u1+rx+cz': ('U1Gate', 'RXGate', 'CZGate'),
+}
+
+
+def compiled(g0: int, a0: int, b0: int, g1: int, a1: int, b1: int, g2: int, a2: int, b2: int, gs: int, lv: int) -> bool:
+    """
+    post: _
+    """
+    import harness.C01 as c01
+    rt.begin()
+    S = rt.SHARD
+    n, m, nops = S['n'], S['m'], S['nops']
+    names = S['gatesets']
+    gsname = names[rt.P(gs, 0, len(names) - 1)]
+    level = S['levels'][rt.P(lv, 0, len(S['levels']) - 1)]
+    ent = 'cz' if 'cz' in gsname else 'cx'
+    kinds = [ent, 'u3', 'h']
+    ops = []
+    for (g, a, b) in [(g0, a0, b0), (g1, a1, b1), (g2, a2, b2)][:nops]:
+        kind = kinds[rt.P(g, 0, len(kinds) - 1)]
+        qa = rt.P(a, 0, n - 1)
+        loc = [qa]
+        if kind in ('cx', 'cz'):
+            qb = rt.P(b, 0, n - 2)
+            loc.append(qb if qb < qa else qb + 1)
+        ops.append((kind, loc))
+    edges = [tuple(e) for e in S['edges']]
+
+    def run() -> Any:
+        import bqskit.ir.gates as G
+        from bqskit.compiler.gateset import GateSet
+        inp, model, reason, res, errs = c01.run_compile(n, ops, [], m, edges, level, {},
+                                                        gate_set=GateSet({getattr(G, x)() for x in GATESETS[gsname]}))
+        if reason != 'quiescent' or errs or res is None:
+            return 'runtime-did-not-finish', inp, res
+        if res[0] != 'ok':
+            lines = [ln.strip() for ln in str(res[2]).split('\n') if 'Error' in ln and ':' in ln]
+            return 'compile-raised:%s' % ((lines[-1] if lines else str(res[1]))[:90]), inp, res
+        fp = c01.judge(inp, model, res[1], [])
+        if fp is not None:
+            return fp, inp, res
+        out = res[1][0]
+        allowed = set(GATESETS[gsname])
+        for op in out:
+            if op.num_qudits == 1 and type(op.gate).__name__ not in allowed:
+                return 'non-native-single-qudit-gate:%s:%s' % (gsname, type(op.gate).__name__), inp, res
+        # multi-qudit nativeness is only asserted when the optimiser stubs had nothing to do: no swaps were needed
+        multi = {type(op.gate).__name__ for op in out if op.num_qudits > 1}
+        if multi <= allowed and not model.is_compatible(out):
+            return 'is_compatible-false-on-native-output', inp, res
+        return None, inp, res
+    fp, inp, res = rt.nt(run)
+    rt.reach()
+    if rt.CONCRETE:
+        rt.log('gate set', gsname, 'level', level, 'input', repr(inp))
+        rt.log('result', repr(res)[:1200])
+    if fp is not None:
+        return rt.fail(fp)
+    return True
+
+
+def _part_b(tier: str) -> list[dict]:
+    obs = []
+    line3 = [[0, 1], [1, 2]]
+    if tier == 'quick':
+        obs.append({'name': 'B/compile/n2m3/ops2/line', 'func': 'compiled', 'timeout': 300,
+                    'shard': {'n': 2, 'm': 3, 'nops': 2, 'edges': line3, 'levels': [1],
+                              'gatesets': ['rz+rx+cz', 'u1+sx+cx', 'rz+sx+cx', 'u1+rx+cz']}})
+    else:
+        for gsn in GATESETS:
+            obs.append({'name': 'B/compile/n3m3/ops3/line/%s' % gsn, 'func': 'compiled', 'timeout': 1500,
+                        'shard': {'n': 3, 'm': 3, 'nops': 3, 'edges': line3, 'levels': [1, 2], 'gatesets': [gsn]}})
+            obs.append({'name': 'B/compile/n2m3/ops2/star/%s' % gsn, 'func': 'compiled', 'timeout': 1500,
+                        'shard': {'n': 2, 'm': 3, 'nops': 2, 'edges': [[0, 2], [1, 2]], 'levels': [1, 2, 3],
+                                  'gatesets': [gsn]}})
+    return obs
+
+
+PART_B.append(_part_b)
